@@ -40,14 +40,22 @@ Inductive hold := Copy            (* .copy() / deepcopy / not taken at all *)
                 | AliasReadOnly   (* kept, only read *)
                 | AliasIfNonEmpty (* `optimization_options or {}`: a non-empty dict is aliased, and written *)
                 | AliasForward.   (* kept and handed on to a k-model in solve() that does AliasIfNonEmpty *)
+(* the CURRENT code (/repo at 5ed9792 and later): every class that writes into its options works on a copy *)
 Definition opts_hold (c : cls) : hold :=
   match c with
   | CkFlowDecomp | CkPathCover | CkPathCoverCycles => Copy               (* kflowdecomp.py:194, kpathcover.py:151, kpathcovercycles.py:133 *)
-  | CkLeastAbsErrors | CkMinPathError => AliasIfNonEmpty                 (* kleastabserrors.py:204, kminpatherror.py:233 *)
-  | CkFlowDecompCycles | CkLeastAbsErrorsCycles | CkMinPathErrorCycles => AliasIfNonEmpty   (* ...cycles.py: `optimization_options or {}` *)
-  | CMinFlowDecomp | CMinPathCover | CMinPathCoverCycles => AliasReadOnly (* forwarded to k-models that copy *)
-  | CMinFlowDecompCycles => AliasForward                                  (* minflowdecompcycles.py:231 -> kflowdecompcycles.py:145 *)
+  | CkLeastAbsErrors | CkMinPathError => Copy                            (* `dict(optimization_options) if optimization_options else {}` *)
+  | CkFlowDecompCycles | CkLeastAbsErrorsCycles | CkMinPathErrorCycles => Copy
+  | CMinFlowDecomp | CMinPathCover | CMinPathCoverCycles | CMinFlowDecompCycles => AliasReadOnly   (* forwarded to k-models that copy *)
   | CstDAG | CstDiGraph | CNodeExpandedDiGraph | CMinErrorFlow => Copy    (* no such parameter *)
+  end.
+(* OLD BEHAVIOUR (/repo at a068bcc, DESIGN §6 #16): `optimization_options or {}` *)
+Definition old_opts_hold (c : cls) : hold :=
+  match c with
+  | CkLeastAbsErrors | CkMinPathError => AliasIfNonEmpty                 (* kleastabserrors.py:204, kminpatherror.py:233 *)
+  | CkFlowDecompCycles | CkLeastAbsErrorsCycles | CkMinPathErrorCycles => AliasIfNonEmpty
+  | CMinFlowDecompCycles => AliasForward                                  (* minflowdecompcycles.py:231 -> kflowdecompcycles.py:145 *)
+  | c' => opts_hold c'
   end.
 (* keys written into the held dict by the constructor; [sup] = solution_weights_superset given, [hc] = constraints given *)
 Definition ctor_writes (c : cls) (sup hc : bool) : list key :=
@@ -75,14 +83,18 @@ Definition is_empty (d : dict) := match d with [] => true | _ => false end.
    (constraints: copy.deepcopy in the abstract base classes; ignore lists / starts / ends: read into sets;
    solver_options: read, deep-copied before a time limit is adjusted; graph: copied into the st-graph / deep-copied by
    NodeExpandedDiGraph and the cover classes; mutable defaults: never written) *)
-Definition step (h : heap) (o : op) : heap :=
+Definition step_gen (hold_of : cls -> hold) (h : heap) (o : op) : heap :=
   if negb (o_pass_opts o) || is_empty (h_opts h) then h
-  else match opts_hold (o_cls o) with
+  else match hold_of (o_cls o) with
        | AliasIfNonEmpty => with_opts h (set_keys (h_opts h) (ctor_writes (o_cls o) (o_sup o) (o_hc o)))
        | AliasForward => if o_solve o then with_opts h (set_keys (h_opts h) (solve_writes (o_cls o))) else h
        | _ => h
        end.
-Definition run (ops : list op) (h : heap) : heap := fold_left step ops h.
+Definition step := step_gen opts_hold.                 (* the current code *)
+Definition old_step := step_gen old_opts_hold.         (* the code before 5ed9792 *)
+Definition run_gen (hold_of : cls -> hold) (ops : list op) (h : heap) : heap := fold_left (step_gen hold_of) ops h.
+Definition run := run_gen opts_hold.
+Definition old_run := run_gen old_opts_hold.
 
 (* what the constructed model sees: the option keys present at construction time (user keys only: the keys a
    constructor writes itself are overwritten by it), together with the other argument values *)
@@ -96,9 +108,9 @@ Definition view_of (h : heap) (o : op) : view :=
 Definition model_of (h : heap) (o : op) : cls * view := (o_cls o, view_of h o).
 
 (* operations that leave the heap alone by construction of the summary *)
-Definition quiet (h : heap) (o : op) : bool :=
+Definition quiet_gen (hold_of : cls -> hold) (h : heap) (o : op) : bool :=
   negb (o_pass_opts o) || is_empty (h_opts h) ||
-  match opts_hold (o_cls o) with AliasIfNonEmpty => false | AliasForward => negb (o_solve o) | _ => true end.
+  match hold_of (o_cls o) with AliasIfNonEmpty => false | AliasForward => negb (o_solve o) | _ => true end.
 
 (* getters: get_solution caches, get_objective_value / is_solved read *)
 Record mstate := { ms_solved : bool; ms_cached : option nat; ms_value : nat }.
